@@ -50,5 +50,6 @@ def run():
     ck.cov['rule'] = ('model: 256 byte values x (tables, T-view, inverses, combined step); trace: one event per call of the real '
                       'code on seeded/boundary (state,key) pairs and buffers of 0..8 (quick) / 0..64 (thorough) blocks recomputed '
                       'completely by the spec, plus full-size (2 MiB, 3200 B) runs checked by local chain links and soft/hard difference counts')
+    ck.cov['rule'] += '; plus: canaries behind every output, zero-size requests, calls during static initialisation, fresh processes with another first AES call, 2^31- and (2^32+k)-byte inputs'
     ck.assumptions += ['hardware AES path = AESENC/AESDEC of this CPU', 'full-size buffers: only sampled links are recomputed in TLA+ (quick); thorough recomputes a whole 2 MiB fingerprint']
     return ck.finish()
